@@ -63,7 +63,7 @@ def main():
             env = dict(os.environ, VERIF_REPO=str(scratch), VERIF_JOBS=os.environ.get("VERIF_JOBS", "8"))
             p = subprocess.run([str(VERIF / "check"), c, tier], capture_output=True, text=True, env=env, cwd=str(VERIF))
             viol = [l for l in p.stdout.splitlines() if l.startswith("VIOLATION")]
-            res[c] = {"rc": p.returncode, "violations": len(viol), "first": viol[0] if viol else "", "summary": p.stdout.strip().splitlines()[-1] if p.stdout.strip() else ""}
+            res[c] = {"rc": p.returncode, "violations": len(viol), "first": viol[0] if viol else "", "summary": p.stdout.strip().splitlines()[-1] if p.stdout.strip() else "", "stderr_tail": p.stderr[-600:]}
             print(f"{c}: rc={p.returncode} violations={len(viol)} {viol[0] if viol else ''}")
         out["checks"] = res
         out["caught_by"] = [c for c, v in res.items() if v["rc"] != 0]
